@@ -65,6 +65,17 @@ def run(ctx):
             lines.append("1 %s %s" % (mat_line(transpose(M, m, n), n, m), w))
         else:
             lines.append("0 %s %s" % (mat_line(M, m, n), w))
+    # larger ones: 6..14 pieces, where members get several children and components are re-rooted between columns
+    for _ in range(3000 if q else 40000):
+        nv, E = gen.glued_graph(rng, 6 + rng.below(9))
+        M, w = gen.graph_instance(rng, nv, len(E), True, loops=False, edges=E)
+        if not M or not M[0]:
+            continue
+        m, n = len(M), len(M[0])
+        if rng.below(2):
+            lines.append("1 %s %s" % (mat_line(transpose(M, m, n), n, m), w))
+        else:
+            lines.append("0 %s %s" % (mat_line(M, m, n), w))
     cores = [gen.F7, gen.F7T, gen.K33_DUAL]
     for _ in range(300 if q else 3000):
         core = gen.scale(rng, rng.choice(cores))
